@@ -621,6 +621,9 @@ PROPS["C15"] = dict(
         K("c15", "c15_bucket_insert_contract", desc="insert_or_replace: find(h)==e afterwards; other keys kept unless Replaced "
           "(bucket full, h absent, exactly one victim); Inserted <=> count+1; invariant preserved; fully symbolic 8 slots",
           functions=["TranspositionBucket::insert_or_replace", "TranspositionInsertionResult::inserted"]),
+        K("c15", "c15_access_routing_bounded", kind="bounded", bound="2 sub-tables x 2 buckets, one insert, symbolic keys and entry; sequential execution", tier="experimental",
+          desc="TranspositionTableAccess insert-then-find hits the same sub-table and bucket; another key is not found",
+          functions=["TranspositionTableAccess::{insert,find}"], timeout=2400),
         V("c15_table_find", ["TranspositionTable::find"], "Verus, Vec of any length: find(h) == view(h), reads only bucket h % len"),
         V("c15_table_insert", ["TranspositionTable::insert", "lemma_sum_update", "lemma_sum_strict", "lemma_sum_bound"],
           "Verus, Vec of any length: insert preserves wf (used_slots == sum of occupied, no overflow), establishes "
